@@ -173,7 +173,17 @@ def r19_3(ctx, rep):
     rep.ob(R, API + ":save_model", "__metadata_dependent categories", order_s is not None and sorted(order_s) == sorted(order_m),
            "dependency tables are written for %s, the metadata function covers %s" % (order_s, order_m))
     # load_model uses the zip with the function called on the parameter vector
-    ok = any("zip(variables_with_metadata, model.variable_metadata_function(parameter_vector))" in norm(s) for s in walk_local(ld) if isinstance(s, ast.Assign))
+    ok = False
+    for st in walk_local(ld):
+        if isinstance(st, ast.Assign) and isinstance(st.value, ast.Call) and call_name(st.value) == "dict" and st.value.args \
+                and isinstance(st.value.args[0], ast.Call) and call_name(st.value.args[0]) == "zip" and len(st.value.args[0].args) == 2:
+            z = st.value.args[0]
+            f = z.args[1]
+            if is_name(z.args[0], "variables_with_metadata") and isinstance(f, ast.Call) and (call_name(f) or "").endswith("variable_metadata_function") and f.args:
+                a = f.args[0]
+                # the parameter vector itself, or (when it is not bound to a name) the veccat of the parameters' symbols
+                if is_name(a, "parameter_vector") or (isinstance(a, ast.Call) and call_name(a) in ("ca.veccat", "ca.vertcat") and ".symbol" in norm(a) and "parameters" in norm(a)):
+                    ok = True
     rep.ob(R, API + ":load_model", "metadata zip", ok, "metadata[key] must pair category k with output k of variable_metadata_function(parameter_vector)")
 
 
@@ -304,28 +314,28 @@ def r19_7(ctx, rep):
     R = "R19.7"
     ld = api_fn(ctx, "load_model", R)
     site = API + ":load_model"
+
+    def is_pvec(e):
+        return isinstance(e, ast.Call) and call_name(e) in ("ca.veccat", "ca.vertcat") and ".symbol" in norm(e) and "parameters" in norm(e)
+
     pv = None
     for st in walk_local(ld):
-        if isinstance(st, ast.Assign) and isinstance(st.targets[0], ast.Name) and isinstance(st.value, ast.Call) and call_name(st.value) in ("ca.veccat", "ca.vertcat") \
-                and any(isinstance(x, ast.Attribute) and x.attr == "symbol" for x in ast.walk(st.value)) and "parameters" in norm(st.value):
+        if isinstance(st, ast.Assign) and isinstance(st.targets[0], ast.Name) and is_pvec(st.value):
             pv = st.targets[0].id
-    if pv is None:
-        raise MechanismMissing(R, "parameter vector (veccat of the parameters' symbols) not found in load_model")
     n = 0
     for c in ast.walk(ld):
         if isinstance(c, ast.Call) and (call_name(c) or "").endswith("variable_metadata_function") and len(c.args) == 1:
             n += 1
             a = c.args[0]
-            if is_name(a, pv):
-                ok = True
+            if (pv and is_name(a, pv)) or is_pvec(a):
+                ok = True  # the parameter vector itself (bound to a name or written in place)
             else:
-                sized = any(isinstance(x, ast.Call) and isinstance(x.func, ast.Attribute) and x.func.attr in ("size", "numel", "size1", "shape")
-                            and (is_name(x.func.value, pv) or (isinstance(x.func.value, ast.Attribute) and x.func.value.attr == "symbol"))
-                            for x in ast.walk(a)) or any(isinstance(x, ast.Attribute) and x.attr == "shape" and is_name(x.value, pv) for x in ast.walk(a))
-                ok = sized
+                ok = any(isinstance(x, ast.Call) and isinstance(x.func, ast.Attribute) and x.func.attr in ("size", "numel", "size1", "shape")
+                         and ((pv and is_name(x.func.value, pv)) or (isinstance(x.func.value, ast.Attribute) and x.func.value.attr == "symbol"))
+                         for x in ast.walk(a)) or any(isinstance(x, ast.Attribute) and x.attr == "shape" and pv and is_name(x.value, pv) for x in ast.walk(a))
             rep.ob(R, site, "argument #%d of variable_metadata_function has the parameter vector's shape" % n, ok,
-                   "`%s` is not sized from %s (or from the parameter symbols): with an unexpanded vector parameter the function is called with "
-                   "too few entries and load_model raises on every cache hit" % (norm(a)[:70], pv))
+                   "`%s` is not sized from the parameter vector (or from the parameter symbols): with an unexpanded vector parameter the "
+                   "function is called with too few entries and load_model raises on every cache hit" % norm(a)[:70])
     if n < 2:
         raise MechanismMissing(R, "load_model no longer evaluates variable_metadata_function twice (parameter values and NaN probe)")
 
